@@ -202,8 +202,9 @@ CHECKS["C10"] = (
     "limit, string literals with escapes: the real lexer/parser (native) + listener + typer return a query or an error, never a panic; every typed query is then "
     "evaluated over symbolic data (each field null or not, sets empty or not, symbolic values) without panicking. Store level: every query shape on a never-"
     "written store, an emptied store, one and three entities with all fields null (sorting compares null with null; QueryIds, IterateIds, IterateValidIds); cursor constructors on empty inputs.",
-    BASE_NOTE + "NOT claimed: termination / no-panic of the ANTLR lexer+parser on arbitrary byte strings and rejection of unrecognised characters (the ATN "
-    "interpreter is not encodable; see DESIGN.md section 7 - e.g. the lexer's silent dropping of unknown characters is outside this technique's reach).",
+    BASE_NOTE + "Rejection of unrecognised characters is checked for an enumerated family only: four base queries x every insertion position outside a string "
+    "literal x 20 characters that occur in no token (1620 texts), each parsed by the real lexer/parser natively (the result is what the executor replays): all are "
+    "rejected without a panic. NOT claimed: termination / no-panic / rejection for arbitrary byte strings (the ATN interpreter is not encodable; DESIGN.md section 7).",
     "6/C10")
 CHECKS["C17"] = (
     "(1) Snapshot / restore round trip through the real Snapshot and RestoreFromReader: state A (1-2 indexed entities, symbolic name), snapshot, one further "
